@@ -21,6 +21,7 @@ type Engine struct {
 	currentKey rune            // The identifier of the macro being recorded.
 	macros     map[rune]string // All previously recorded macros.
 	started    bool
+	skipKeys   bool // The keys of the command that just ran are not part of the macro.
 
 	keys   *core.Keys // The engine feeds macros directly in the key stack.
 	hint   *ui.Hint   // The engine notifies when macro recording starts/stops.
@@ -46,6 +47,13 @@ func RecordKeys(eng *Engine) {
 
 	keys := core.MacroKeys(eng.keys)
 	if len(keys) == 0 {
+		return
+	}
+
+	// The command refused to run the macro being defined:
+	// its keys would make the macro call itself for ever.
+	if eng.skipKeys {
+		eng.skipKeys = false
 		return
 	}
 
@@ -110,6 +118,13 @@ func (e *Engine) Recording() bool {
 // Note that this function only feeds the keys of the macro back into the key
 // stack: it does not dispatch them to commands, therefore not running any.
 func (e *Engine) RunLastMacro() {
+	// While a macro is being defined, the last macro is about to be that
+	// one: calling it would make it feed itself endlessly when replayed.
+	if e.recording {
+		e.skipKeys = true
+		return
+	}
+
 	if len(e.macros) == 0 {
 		return
 	}
@@ -130,6 +145,12 @@ func (e *Engine) RunLastMacro() {
 // stack: it does not dispatch them to commands, therefore not running any.
 func (e *Engine) RunMacro(key rune) {
 	if !isValidMacroID(key) && key != 0 {
+		return
+	}
+
+	// A macro cannot run itself while being defined (it would then do so for ever).
+	if e.recording && (key == e.currentKey || key == 0) {
+		e.skipKeys = true
 		return
 	}
 
